@@ -23,7 +23,7 @@ EXTENDS Integers, Sequences, FiniteSets, TLC
 Has(f, k)    == k \in DOMAIN f
 AllTrue(g)   == \A n \in DOMAIN g : g[n]
 FalseOnes(g) == {n \in DOMAIN g : ~g[n]}
-BadAddrs     == {"bad:empty", "bad:notbech32"}
+BadAddrs     == {"bad:empty", "bad:notbech32", "bad:space"}      \* "bad:space": a string of blanks - not empty, not an address
 ValidAddr(a) == a \notin BadAddrs
 IsExecutor(s, a) == \E i \in 1..Len(s.execs) : s.execs[i] = a
 
